@@ -1059,6 +1059,13 @@ class TextXVisitor(RRELVisitor):
 
         except IndexError:
             to_match = ""
+        except UnicodeDecodeError as e:
+            line, col = self.grammar_parser.pos_to_linecol(node.position)
+            raise TextXSyntaxError(
+                f"Invalid escape sequence in string match at {(line, col)}: {e.reason}",
+                line,
+                col,
+            ) from e
 
         # Support for autokwd metamodel param.
         if self.metamodel.autokwd:
